@@ -41,6 +41,11 @@ CHECKS = {
     'C08': ('§3 C08', 'R08a every slab field that SlabRouter::clear wipes and that code outside the router writes through is written '
             'again on the restore path of TensorStore::restore_from_bytes (clear set ⊆ refill set over fields in use, across all workspace crates)',
             'field read/write sets over the call graph, whole-workspace who-uses-field scan'),
+    'C09': ('§3 C09', 'R09a every transactional call tests is_active before any effect, R09b undo is recorded before the change '
+            '(update/delete) and on every success path (insert), R09c row locks are taken before any change and every tx mutator '
+            'locks the rows it changes (sibling cross-check), R09d each undo arm calls the inverse of every forward operation class, '
+            'R09e commit and rollback release locks and forget the transaction on every exit',
+            'cut-reachability over outcome edges, enum-dispatch table agreement, sibling cross-check'),
     'C10': ('§3 C10', 'R01a persist-before-mutate of term/vote (cut-reachability over Ok-edges of the persist call, all write sites '
             'in the workspace), R10a every log growth site reaches success only through a successful persist, R10c recovery '
             'table covers every record the node writes and keeps the first vote of a term, R02b tail repair on reopen, R02e replay '
